@@ -43,6 +43,9 @@ THEOREMS = [
     'Emg.energy_nonneg', 'Emg.relaxBlock_energy', 'Emg.smoothingC_energy_le',
     'Emg.smoothing_energy_le', 'Emg.kernel_energy_le', 'Emg.PhysR.reach',
     'Emg.smoothingC_energy_le_reach',
+    # ... and strictly decreasing for strictly dissipative models
+    'Emg.energy_eq_zero', 'Emg.relaxAll_energy_lt', 'Emg.kernelBlocks_cover',
+    'Emg.kernel_energy_lt', 'Emg.smoothing_energy_lt',
 ]
 
 BASELINE = os.path.join(os.path.dirname(__file__), 'c06_baseline.json')
@@ -355,27 +358,32 @@ def suite_energy(ctx):
             S.smoothing(vm, s, e, nu, lr)
             after = energy(e.field - estar.field)
             ctx.count(key=('energy', shp, case, lr, nu, step))
-            if not after <= before*(1 + 1e-9) + 1e-13*e0:
+            strict = before > 1e-8*e0 and not after < before
+            if strict or not after <= before*(1 + 1e-9) + 1e-13*e0:
                 bad.append(('energy increased', shp, case, lr, nu))
                 ctx.violation(
                     'smoother-increases-energy-norm',
                     f'Laplace domain (s={sval:.3g}), shape {shp}, {case}: '
                     f'solver.smoothing(nu={nu}, lr_dir={lr}) changed the '
                     f'energy norm of the error from {before!r} to {after!r} '
-                    f'(theorem smoothing_energy_le: never increases)',
+                    f'(theorems smoothing_energy_le / smoothing_energy_lt: '
+                    f'never increases, strictly decreases for a non-zero '
+                    f'error)',
                     {'shape': list(shp), 'case': case, 'lr_dir': lr, 'nu': nu})
                 break
     ctx.oblige('monitor: Laplace domain, real solver.smoothing (jitted '
                'kernels, every line-relaxation code, 1-3 sweeps, stretched '
                'grids, anisotropy, mu_r, epsilon_r): <A d, d> > 0 and the '
-               'energy norm of the error never increases (theorems '
-               'energy_nonneg, smoothing_energy_le executed on the code)',
+               'energy norm of the error never increases and strictly '
+               'decreases while the error is not negligible (theorems '
+               'energy_nonneg, smoothing_energy_le, smoothing_energy_lt '
+               'executed on the code)',
                'monitor', not bad, str(bad[:2]))
     return bad
 
 
 def run(ctx):
-    ctx.lean('Emg3dVerif.Props.SmoothEnergy', THEOREMS)
+    ctx.lean('Emg3dVerif.Props.SmoothStrict', THEOREMS)
     ctx.assumptions += [
         'PARTIAL: the convergence factor and its grid-size independence are '
         'MEASURED on the reference problems (obligation kind "measured"), '
